@@ -155,7 +155,7 @@ def showRec (r : Rec) : String :=
 def showAck (a : Nat × Int) : String := s!"{a.1}/{a.2}"
 
 def ackOfReq : Req → String
-  | .otlp rs => if reqPanics rs then "panic" else showAck (ack (ingest rs))
+  | .otlp rs => showAck (ack (ingest rs))
   | .raw _ => showAck (200, 0)
 
 def b01 (b : Bool) : String := if b then "1" else "0"
@@ -169,14 +169,17 @@ def showGantt (g : Option (List GNode)) : String :=
   | none => "err400"
   | some ns => ",".intercalate (ns.map showNode)
 
-def showSearch : SearchOut → String
-  | .multiPage => "multi-page"
-  | .err500 => "err500"
-  | .ok rows => if rows.isEmpty then "-" else
-      ",".intercalate (rows.map (fun r => ":".intercalate [r.trace, r.svc, r.op, toString r.count, toString r.errs, toString r.start, toString r.end_]))
+def showRows (rows : List TraceRow) : String :=
+  if rows.isEmpty then "-" else
+  ",".intercalate (rows.map (fun r => ":".intercalate [r.trace, r.svc, r.op, toString r.count, toString r.errs, toString r.start, toString r.end_]))
+
+/-- pages 1 … ⌈n/50⌉ + 1 (the last one is beyond the end: empty) -/
+def showSearch (recs : List Rec) : String :=
+  let n := (traceIds recs).length
+  let k := (n + tracePageLimit - 1) / tracePageLimit + 1
+  "|".intercalate ((List.range k).map (fun i => showRows (searchPage recs (i + 1))))
 
 def showDep : DepOut → String
-  | .beyondFirstPage => "beyond-first-page"
   | .nil => "nil"
   | .ok m => if m.isEmpty then "-" else ",".intercalate (m.map (fun e => s!"{e.1.1}>{e.1.2}={e.2}"))
 
@@ -196,7 +199,7 @@ def answer (page pick : Nat) (reqs : List Req) : String :=
   let ev := if evs.isEmpty then "-" else ";".intercalate evs
   let gs := (traceIds recs).filter (· != "") |>.map (fun t => s!"g:{t}=" ++ showGantt (gantt page pick recs t))
   let g := if gs.isEmpty then "g:-" else " ".intercalate gs
-  s!"acks={acks} ev={ev} {g} S={showSearch (search recs)} D={showDep (dep recs)} R={showRed (redE2E page recs)}"
+  s!"acks={acks} ev={ev} {g} S={showSearch recs} D={showDep (dep page recs)} R={showRed (redE2E page recs)}"
 
 def handle (cmd : String) (args : List String) : Option String :=
   match cmd, args with
